@@ -1,6 +1,6 @@
 """C05 - literal zones pass through every pipeline byte-for-byte.
 
-Deciding step: exhaustive enumeration of ALL zone contents of <= L lines over 30 line atoms (tabs, NFD,
+Deciding step: exhaustive enumeration of ALL zone contents of <= L lines over 31 line atoms (tabs, NFD,
 backslash escapes, quotes, every operator and alias, ::, envelope markers, separators, shorter backtick
 runs, comments, blank/indented lines, CR, curly annotations) x fence lengths x info tags x placements
 (assignment value at depth 0..3, bare block child first/middle/last/after nested block, two zones),
@@ -39,10 +39,15 @@ ASSUMPTIONS = [
 ATOMS = [
     "x", "\tx", "é", "a\\nb", '"', '"""', "→ ⊕ ⧺ ⇌ ∧ ∨ §", "-> + ~ vs <-> | & #", "A::B", "===END===", "---", "``", "```",
     "//x", "§1::S", "[", "]", " lead", "trail ", "", "a\rb", "KEY::v", "    indented", "\\", "===X===", "META:", "NAME{q}", "````py",
-    "```e\u0301\u2126", "  ``` \u212b",      # shorter backtick run followed by NFC-unstable text (fence-shaped content line)
+    "```e\u0301\u2126", "  ``` \u212b",
+    "a\x0cb\u2028c\x85d\x0be\x1cf\u2029g",      # every non-LF line boundary str.splitlines() knows      # shorter backtick run followed by NFC-unstable text (fence-shaped content line)
 ]
 TAGS = [None, "py", "a b"]
-PLACEMENTS = ["top", "block1", "block2", "section", "section_nested", "bare_first", "bare_middle", "bare_after_nested", "two_values", "two_bare"]
+PLACEMENTS = ["top", "block1", "block2", "section", "section_nested", "bare_first", "bare_middle", "bare_after_nested", "two_values", "two_bare",
+              "after_nfd", "frontmatter"]
+
+
+NFC_P = "\u00e9 \u00f4 \u00fc \u00e5 \u00e9 \u00f4 \u00fc \u00e5 \u00e9 \u00f4"
 
 
 def min_fence(lines) -> int:
@@ -80,6 +85,12 @@ def build(lines, fence_len, tag, placement):
         body = [A("K", z), A("K2", z2), A("Q", S("q"))]
     elif placement == "two_bare":
         body = [B("B1", [Z(z), Z(z2)]), A("Q", S("q"))]
+    elif placement == "after_nfd":
+        # NFC-unstable text OUTSIDE the zone, before it: the reader's normalised buffer is shorter than the source text
+        # (the model holds the NFC form - that is what the reader returns for text outside zones; check() spells it NFD)
+        body = [A("P", S(NFC_P, "quoted")), A("K", z), A("Q", S("q"))]
+    elif placement == "frontmatter":
+        return Doc([A("P", S("p")), A("K", z), A("Q", S("q"))], name="D", meta=meta, separator=True, frontmatter="name: x\ndescription: y")
     else:
         raise KeyError(placement)
     return Doc(body, name="D", meta=meta, separator=True)
@@ -151,6 +162,9 @@ def check(case) -> Res:
     d = build(lines, fence_len, tag, placement)
     exp = norm(dm.dcontent(d))
     x = render(d, {}).text
+    if placement == "after_nfd":
+        import unicodedata
+        x = x.replace(NFC_P, unicodedata.normalize("NFD", NFC_P), 1)
     t = _tools()
     loop = t["loop"]
     cs = dict(lines=lines, fence=fence_len, tag=tag, placement=placement)
